@@ -171,22 +171,56 @@ class Emission:
     listname: str
 
 
-def eq_list_names(f) -> Set[str]:
-    """Names of the local lists that are added to an operator's `equations` (`op_info['equations'] += L`)."""
-    out = set()
+def _eq_sink_nodes(f) -> List[ast.Name]:
+    out = []
     for n in walk_shallow(f.node):
         if isinstance(n, ast.AugAssign) and isinstance(n.op, ast.Add) and isinstance(n.target, ast.Subscript) \
                 and const_str(n.target.slice) == "equations" and isinstance(n.value, ast.Name):
-            out.add(n.value.id)
+            out.append(n.value)
         if isinstance(n, ast.Call) and isinstance(n.func, ast.Attribute) and n.func.attr == "extend" and len(n.args) == 1 \
                 and isinstance(n.args[0], ast.Name) and isinstance(n.func.value, ast.Subscript) \
                 and const_str(n.func.value.slice) == "equations":
-            out.add(n.args[0].id)
+            out.append(n.args[0])
     return out
 
 
+def eq_list_names(f, ctx=None, _depth=0) -> Set[str]:
+    """Names of the local lists that are added to an operator's `equations` (`op_info['equations'] += L`, `.extend(L)`), directly
+    or by a helper the list is handed to (`self._attach(node, op, L, ...)` whose parameter, unchanged, is added to `['equations']`)."""
+    out = {n.id for n in _eq_sink_nodes(f)}
+    if ctx is not None and _depth < 2:
+        for call, g, binding in helper_calls(ctx, f):
+            # parameters of the helper that reach an `equations` sink unchanged (in the helper, or one level further down)
+            sinks = eq_list_names(g, ctx, _depth + 1) & {p_ for p_ in g.params if param_never_rebound(ctx, g, p_)}
+            for p_ in sinks:
+                a_ = binding.get(p_)
+                if isinstance(a_, ast.Name):
+                    out.add(a_.id)
+    return out
+
+
+def helper_calls(ctx, f):
+    """(call, callee, {parameter: argument}) for every call in `f` that resolves to one same-module repository function."""
+    out = []
+    for n in walk_shallow(f.node):
+        if isinstance(n, ast.Call):
+            g = resolve_single(ctx, f, n)
+            if g is not None and g is not f and g.module is f.module and not any(isinstance(a, ast.Starred) for a in n.args) \
+                    and all(k.arg for k in n.keywords):
+                out.append((n, g, bind_args(g, n)))
+    return out
+
+
+def param_never_rebound(ctx, g, name: str) -> bool:
+    """every read of parameter `name` in g sees the value passed in"""
+    for x in walk_shallow(g.node):
+        if isinstance(x, ast.Name) and x.id == name and isinstance(x.ctx, ast.Load) and not is_param(ctx, g, x):
+            return False
+    return True
+
+
 def emissions(ctx, f) -> List[Emission]:
-    names = eq_list_names(f)
+    names = eq_list_names(f, ctx)
     out: List[Emission] = []
     if not names:
         return out
